@@ -139,7 +139,15 @@ def meta_case(draw):
         exts = draw(st.lists(st.sampled_from([".zz", ".tar.gz", ".UP", ".up", ".txt", ".c", "rs", ".", ".png", ".mp3", "gz"]),
                              min_size=0, max_size=4, unique=True))
         override = {"cls": cls, "exts": exts}
-    return {"kind": "meta", "tree": tree, "override": override, "root": draw(st.sampled_from([".", "./", "abs"]))}
+    follow = draw(st.sampled_from([False, False, True]))
+    if follow:
+        # with `symlinks` the walk follows links to directories; keep the row set equal to the plain walk by
+        # re-targeting such links (links to files and dangling links stay): the metadata of a link entry itself is
+        # still the link's own (lstat) in both modes
+        for nm, node in tree.items():
+            if node["t"] == "l" and tree.get(node["to"], {}).get("t") == "d":
+                node["to"] = "no-such-target"
+    return {"kind": "meta", "tree": tree, "override": override, "root": draw(st.sampled_from([".", "./", "abs"])), "symlinks": follow}
 
 
 @st.composite
@@ -353,7 +361,8 @@ def check_meta(out, case, base):
     cols = ["name", "path", "dir", "ext", "abspath", "absdir", "size", "uid", "gid", "user", "group", "inode", "hardlinks",
             "blocks", "modified", "mode", "is_hidden", "is_empty", "has_xattrs", "caps", "has_caps()", "has_xattr(user.test)",
             "xattr(user.test)"] + CLASSES
-    rows = run(out, base, "select " + ", ".join(cols) + " from " + root + " into list", len(cols), cfg=cfg, tag="C04/meta")
+    opt = " symlinks" if case.get("symlinks") else ""
+    rows = run(out, base, "select " + ", ".join(cols) + " from " + root + opt + " into list", len(cols), cfg=cfg, tag="C04/meta")
     if rows is None:
         return
     ents = {e.path: e for e in model.observe(base, root)}
@@ -436,7 +445,7 @@ def check_meta(out, case, base):
                 out.add("C04/meta/%s/%s" % (cls, "overridden" if case["override"] and case["override"]["cls"] == cls else "default"),
                         entry=p, printed=c[cls], want=model.b(want), active_list=lists[cls][:12])
     out.nontrivial = len(kinds) >= 3 or bool(case["override"])
-    out.classes += ["meta", "kinds=%d" % len(kinds), "root=" + case["root"]] + (["override=" + case["override"]["cls"]] if case["override"] else [])
+    out.classes += ["meta", "kinds=%d" % len(kinds), "root=" + case["root"]] + (["symlinks-option"] if case.get("symlinks") else []) + (["override=" + case["override"]["cls"]] if case["override"] else [])
     out.sample = {"kind": "meta", "entries": len(ents), "override": case["override"], "root": case["root"]}
 
 
